@@ -259,8 +259,45 @@ func (o *Oracle) Match(src engine.Value, S types.Type, got engine.Value, T types
 		if s.M == nil {
 			return
 		}
-		if len(s.M.Entries) != len(g.M.Entries) {
+		// the property assumes injective key conversions; enum / custom key conversions may collapse keys
+		injective := true
+		if o.Spec != nil {
+			kk := pairKey(sm.Key(), tu.Key())
+			if _, ok := o.Spec.Enums[kk]; ok {
+				injective = false
+			}
+			if _, ok := o.Spec.Custom[kk]; ok {
+				injective = false
+			}
+		}
+		if injective && len(s.M.Entries) != len(g.M.Entries) {
 			o.fail(path, "map entry count differs (%d vs %d)", len(s.M.Entries), len(g.M.Entries))
+			return
+		}
+		if !injective {
+			if len(g.M.Entries) > len(s.M.Entries) {
+				o.fail(path, "map has more entries than the source (%d vs %d)", len(g.M.Entries), len(s.M.Entries))
+				return
+			}
+			for j, se := range s.M.Entries {
+				any := engine.False
+				for _, ge := range g.M.Entries {
+					se, ge := se, ge
+					any = engine.Or(any, o.collect(func() { o.Match(se.K, sm.Key(), ge.K, tu.Key(), path+".key") }))
+				}
+				o.leaf(fmt.Sprintf("%s{entry %d}", path, j), any, "no result entry has the converted key of this source entry")
+			}
+			for i, ge := range g.M.Entries {
+				any := engine.False
+				for _, se := range s.M.Entries {
+					se, ge := se, ge
+					any = engine.Or(any, o.collect(func() {
+						o.Match(se.K, sm.Key(), ge.K, tu.Key(), path+".key")
+						o.Match(se.V, sm.Elem(), ge.V, tu.Elem(), path+".value")
+					}))
+				}
+				o.leaf(fmt.Sprintf("%s{result entry %d}", path, i), any, "result entry is not the conversion of any source entry")
+			}
 			return
 		}
 		for j, se := range s.M.Entries {
